@@ -323,16 +323,14 @@ theorem apply_only_touches {p : Premise} {store store' : List Res} (h : p.apply 
           store' = store.set p.sid { store.getD p.sid default with o := o' } := by
   unfold Premise.apply at h
   have main : ∀ (r : R OverlapResult),
-      (match r with
-        | Except.error e => Except.error e
-        | Except.ok v => (pure (setAt store p.sid { store.getD p.sid default with o := v }) : R (List Res))) = .ok store' →
+      (r >>= fun v => (pure (setAt store p.sid { store.getD p.sid default with o := v }) : R (List Res))) = .ok store' →
       store'.length = store.length ∧ (∀ i, i ≠ p.sid → store'[i]? = store[i]?) ∧
         ∃ o', r = .ok o' ∧ store' = store.set p.sid { store.getD p.sid default with o := o' } := by
     intro r hr
     cases r with
     | error e => cases hr
     | ok v =>
-      simp only [pure, Except.pure, Except.ok.injEq] at hr
+      simp only [bind, Except.bind, pure, Except.pure, Except.ok.injEq] at hr
       subst hr
       refine ⟨by simp [setAt], ?_, v, rfl, rfl⟩
       intro i hi
@@ -340,7 +338,7 @@ theorem apply_only_touches {p : Premise} {store store' : List Res} (h : p.apply 
       rw [List.getElem?_set_ne (by omega)]
   unfold getRes
   cases hk : p.kind with
-  | start => rw [hk] at h; simp only [bind, Except.bind] at h; exact main _ h
-  | stop => rw [hk] at h; simp only [bind, Except.bind] at h; exact main _ h
+  | start => rw [hk] at h; exact main (store.getD p.sid default).o.discardStart h
+  | stop => rw [hk] at h; exact main (store.getD p.sid default).o.discardEnd h
 
 end AgpTpf.C02
